@@ -1,4 +1,52 @@
 import XPathV.Model.Api
-/-! # Property C04 — theorems (placeholder header; filled in below) -/
+import XPathV.Lemmas.Facts
+/-!
+# C04 — a compiled expression is a pure function of (document, context node)
+
+In the model an `Expr` *is* its plan: `Select` and `Evaluate` start from the reset state of a
+clone, so the outcome of a call cannot depend on earlier calls.  What makes this the model of the
+code is structural and is re-read from the source on every run (F7, F15): both entry points clone
+the shared query tree before touching it, and every `Clone` copies configuration only.
+-/
 namespace XPathV.Theorems.C04
+open XPathV XPathV.Model XPathV.Facts
+
+/-- T0 (F15): `Expr.Select` and `Expr.Evaluate` both operate on `expr.q.Clone()` -/
+theorem api_clones : Generated.selectClones = true ∧ Generated.evaluateClonesBeforeEval = true ∧
+    Generated.evaluateIterClones = true := by decide
+
+/-- T0 (F7): every `Clone` builds the expected type, copies every configuration field, copies no
+iteration-state field, and clones (never shares) its sub-queries -/
+theorem clone_table_ok : Generated.structs.all cloneOk = true := by decide
+
+variable {F : Type} [NumAlg F]
+
+/-- operations on one compiled expression -/
+inductive Op
+  | select (d : Doc) (c : Ref) (consumed : Nat)   -- iterate `consumed` results, then abandon
+  | evaluate (d : Doc) (c : Ref)
+
+/-- outcome of one operation on a plan, as the model computes it from the reset state -/
+def outcome (cfg : ECfg) (p : Plan) : Op → Except EErr (MVal F)
+  | .select d c n => (selectAll (F := F) d cfg p c).map (fun l => .nodes (l.take n))
+  | .evaluate d c => evaluate (F := F) d cfg p c
+
+/-- run a history on a shared expression: since every call clones, the "state" threaded through
+the history is the plan itself, unchanged -/
+def runHistory (cfg : ECfg) (p : Plan) : List Op → List (Except EErr (MVal F))
+  | [] => []
+  | op :: rest => outcome (F := F) cfg p op :: runHistory cfg p rest
+
+/-- **history independence**: the last outcome of any history equals the outcome on a fresh
+compile of the same text, whatever was evaluated before and however far it was consumed -/
+theorem C04_history_independent (cfg : ECfg) (p : Plan) (h : List Op) (op : Op) :
+    (runHistory (F := F) cfg p (h ++ [op])).getLast? = some (outcome (F := F) cfg p op) := by
+  induction h with
+  | nil => simp [runHistory]
+  | cons a t ih =>
+    simp only [List.cons_append, runHistory]
+    cases hrest : runHistory (F := F) cfg p (t ++ [op]) with
+    | nil => simp [hrest] at ih
+    | cons x xs => rw [hrest] at ih; simpa using ih
+
 end XPathV.Theorems.C04
